@@ -2820,23 +2820,10 @@ func (w *Writer) isImageLoadResultScalar(imageHandle ir.ExpressionHandle) bool {
 // getStorageLoadHelper returns the scalar type name if the image expression
 // refers to a scalar storage texture that needs LoadedStorageValueFrom wrapper.
 func (w *Writer) getStorageLoadHelper(imageHandle ir.ExpressionHandle) string {
-	if w.currentFunction == nil || int(imageHandle) >= len(w.currentFunction.Expressions) {
-		return ""
-	}
-	expr := w.currentFunction.Expressions[imageHandle]
-	gvExpr, ok := expr.Kind.(ir.ExprGlobalVariable)
-	if !ok {
-		return ""
-	}
-	if int(gvExpr.Variable) >= len(w.module.GlobalVariables) {
-		return ""
-	}
-	gv := &w.module.GlobalVariables[gvExpr.Variable]
-	if int(gv.Type) >= len(w.module.Types) {
-		return ""
-	}
-	img, ok := w.module.Types[gv.Type].Inner.(ir.ImageType)
-	if !ok || img.Class != ir.ImageClassStorage {
+	// The expression's resolved type covers a texture held in a global and a
+	// texture passed as a function argument alike.
+	img := w.getImageTypeFromExpr(imageHandle)
+	if img == nil || img.Class != ir.ImageClassStorage {
 		return ""
 	}
 	return storageFormatScalarName(img.StorageFormat)
